@@ -59,8 +59,30 @@ def render(m, kinds, sids=None, header="A B", trailing_newline=False):
 DECORS = (" # µ", "\t#Ωx", " \t# µΩ größe € \U0001F600")
 
 
-def parse_scenarios(m, kinds, sids, headers=("A B", "A", "A B C")):
+def literal_extremes():
+    """integer literals at and beyond every radix's 64-bit boundary, in the places a number can stand: a located error or a
+    test, never a panic"""
+    lits = ["9223372036854775807", "9223372036854775808", "18446744073709551615", "18446744073709551616", "99999999999999999999999",
+            "0x7FFFFFFFFFFFFFFF", "0x8000000000000000", "0xFFFFFFFFFFFFFFFF", "0x10000000000000000", "0XfffffffffffffffffF",
+            "0777777777777777777777", "01000000000000000000000", "01777777777777777777777", "02000000000000000000000",
+            "07777777777777777777777", "017777777777777777777777", "0b" + "1" * 63, "0b" + "1" * 64, "0B1" + "0" * 64, "0b" + "1" * 70,
+            "00000000000000000000000000000007", "0x00000000000000000000000000001", "0b" + "0" * 80 + "1"]
     out = []
+    for l in lits:
+        for src in ("A B\n%s 1\n", "A B\n1 (%s)\n", "A B\nlet v = %s;\n1 1\n", "A B\nloop(i, %s)\n1 1\nend loop\n", "A B\nbits(%s, 1)\n",
+                    "A B\nbits(2, %s)\n", "A B\nrepeat(%s) 1 1\n", "A B\n1 (1 + %s)"):
+            out.append(Scenario(src % l, [], mode="parse", render=True, note="literal %s in %r" % (l[:14], src[:18])))
+    return out
+
+
+_LIT_EXTREMES = None
+
+
+def parse_scenarios(m, kinds, sids, headers=("A B", "A", "A B C")):
+    global _LIT_EXTREMES
+    if _LIT_EXTREMES is None:
+        _LIT_EXTREMES = literal_extremes()
+    out = list(_LIT_EXTREMES) if any(kind_name(m, k) in ("DecInt", "HexInt", "OctInt", "BinInt") for k in kinds) else []
     for h in headers:
         for nl in (False, True):
             src = render(m, kinds, sids, h, nl)
